@@ -252,6 +252,11 @@ def closure_contracts(body, specs, where, prov):
             inner = "{ " + cs["hoist"] + " " + (inner[1:] if is_block else inner + " }")
             is_block = True
             prov.append({"cls": "P", "what": "closure parameter pattern hoisted: " + cs["hoist"]})
+        if cs.get("top"):
+            # ghost hints as the first statements of the closure body
+            if not is_block:
+                inner, is_block = "{ " + inner + " }", True
+            inner = "{ " + cs["top"].strip() + " " + inner[1:]
         new = "%s%s ensures %s %s" % (cs["typed"], req, ens, inner if is_block else "{ " + inner + " }")
         body = body[:a] + new + body[end:]
         prov.append({"cls": "A", "what": "closure contract on `%s`" % cs["params"], "text": cs["typed"] + " ensures " + ens})
